@@ -371,9 +371,10 @@ Definition mem (l : nat) (s : list nat) : bool := existsb (Nat.eqb l) s.
 Section Repr.
   Variable ct : ctable.
   Variable h : heap.
-  (* does the one-line form of the instance at l exceed indent_threshold (or contain a
-     newline)?  The model does not compute strings; theorems hold for every oracle. *)
-  Variable long : nat -> bool.
+  (* does the one-line form of the instance at l, rendered while the containers in
+     [act] are being rendered, exceed indent_threshold (or contain a newline)?  The
+     model does not compute strings; theorems hold for every oracle. *)
+  Variable long : list nat -> nat -> bool.
   (* [guarded = false]: the indented expansion before `fix: indented __repr__ ...` *)
   Variable guarded : bool.
 
@@ -436,7 +437,7 @@ Section Repr.
             | MTrue => bindr (render true) (fun fs => Ok (RFull c true fs))
             | MNone =>
                 bindr (render false) (fun fs =>
-                  if long self
+                  if long act self
                   then bindr (render true) (fun fs' => Ok (RFull c true fs'))
                   else Ok (RFull c false fs))
             end
@@ -488,9 +489,9 @@ Section Repr.
 End Repr.
 
 (* repr(x) / x.__repr__(indent=m) on today's code *)
-Definition repr (ct : ctable) (h : heap) (long : nat -> bool) (n : nat) (l : nat) (m : mode) : res rep :=
+Definition repr (ct : ctable) (h : heap) (long : list nat -> nat -> bool) (n : nat) (l : nat) (m : mode) : res rep :=
   repr_inst ct h long true n [] l m.
-Definition repr_old (ct : ctable) (h : heap) (long : nat -> bool) (n : nat) (l : nat) (m : mode) : res rep :=
+Definition repr_old (ct : ctable) (h : heap) (long : list nat -> nat -> bool) (n : nat) (l : nat) (m : mode) : res rep :=
   repr_inst ct h long false n [] l m.
 
 (* the attribute names a rendering shows, in order *)
